@@ -82,6 +82,18 @@ class ErrFact(Exception):
     pass
 
 
+class ErrInstF(Exception):
+    """Variant (prog["errfalsy"]): the configured error objects are FALSY (an exception type with __bool__ / __len__)."""
+
+    def __bool__(self) -> bool:
+        return False
+
+
+class ErrFactF(Exception):
+    def __len__(self) -> int:
+        return 0
+
+
 class ErrInstB(BaseException):
     """Variant (prog["errbase"]): the configured errors derive from BaseException directly."""
 
@@ -248,12 +260,12 @@ class Runtime:
         for c, inst in self.err_inst.items():
             if exc is inst:
                 return ("ErrInst", c)
-        if isinstance(exc, (ErrInst, ErrInstB)):
+        if isinstance(exc, (ErrInst, ErrInstB, ErrInstF)):
             return ("ErrInstCopy", getattr(exc, "c", -1))
         for c, last in self.last_fact.items():
             if exc is last:
                 return ("ErrFact", c)
-        if isinstance(exc, (ErrFact, ErrFactB)):
+        if isinstance(exc, (ErrFact, ErrFactB, ErrFactF)):
             return ("ErrFactOther", getattr(exc, "c", -1))
         for c, k in self.err_class.items():
             if type(exc) is k:
@@ -627,7 +639,7 @@ class Runtime:
             _h.emit("errf.out", c, o, a, v, cls)
             raise
         if con["err"] == "factory":
-            exc = (ErrFactB if _h.prog.get("errbase") else ErrFact)("fact{}".format(c))
+            exc = (ErrFactF if _h.prog.get("errfalsy") else ErrFactB if _h.prog.get("errbase") else ErrFact)("fact{}".format(c))
             exc.c = c  # type: ignore
             _h.last_fact[c] = exc
             _h.emit("errf.out", c, o, a, 1, "ret")
